@@ -53,17 +53,39 @@ pub fn declared(source: &str) -> Vec<(String, String)> {
 }
 
 fn header(stmt: &str) -> String {
-    // the part of a compound statement that is evaluated by the statement itself
+    // the part of a compound statement that is evaluated by the statement itself: up to the
+    // first THEN / DO / OF, plus - for an IF - the conditions of its own ELSIF branches
     let toks = lex(stmt);
+    let mut out: Option<String> = None;
+    let mut depth = 0i32;
+    let mut elsif_from: Option<usize> = None;
     for t in &toks {
-        if t.kind == K::Word {
-            let w = stmt[t.start..t.end].to_ascii_uppercase();
-            if matches!(w.as_str(), "THEN" | "DO" | "OF") {
-                return stmt[..t.end].to_string();
+        if t.kind != K::Word {
+            continue;
+        }
+        let w = stmt[t.start..t.end].to_ascii_uppercase();
+        match out {
+            None => {
+                if matches!(w.as_str(), "THEN" | "DO" | "OF") {
+                    out = Some(stmt[..t.end].to_string());
+                    depth = 1;
+                }
             }
+            Some(ref mut text) => match w.as_str() {
+                "IF" | "CASE" | "FOR" | "WHILE" | "REPEAT" => depth += 1,
+                "END_IF" | "END_CASE" | "END_FOR" | "END_WHILE" | "END_REPEAT" => depth -= 1,
+                "ELSIF" if depth == 1 => elsif_from = Some(t.start),
+                "THEN" if depth == 1 => {
+                    if let Some(from) = elsif_from.take() {
+                        text.push(' ');
+                        text.push_str(&stmt[from..t.end]);
+                    }
+                }
+                _ => {}
+            },
         }
     }
-    stmt.to_string()
+    out.unwrap_or_else(|| stmt.to_string())
 }
 
 /// Static types mentioned in a statement: declared types of its identifiers, prefixes of its
@@ -207,6 +229,30 @@ pub fn has_nonliteral_initialiser(source: &str) -> bool {
     false
 }
 
+/// Names declared `name : T := P#...` with an elementary literal prefix P different from
+/// the declared elementary type T (the unchecked initialiser stores a P value in a T variable).
+pub fn mistyped_initialised_names(source: &str) -> Vec<String> {
+    let toks: Vec<(K, &str)> = lex(source)
+        .into_iter()
+        .filter(|t| t.kind != K::Trivia)
+        .map(|t| (t.kind, &source[t.start..t.end]))
+        .collect();
+    let mut out = Vec::new();
+    for i in 0..toks.len() {
+        if toks[i].0 == K::Word && i + 4 < toks.len() && toks[i + 1].1 == ":" && toks[i + 2].0 == K::Word && toks[i + 3].1 == ":=" && toks[i + 4].0 == K::TypedLit {
+            let ty = toks[i + 2].1.to_ascii_uppercase();
+            if let Some((p, _)) = toks[i + 4].1.split_once('#') {
+                let p = p.to_ascii_uppercase();
+                let elementary = |t: &str| SIGNED.contains(&t) || UNSIGNED.contains(&t) || matches!(t, "REAL" | "LREAL" | "BYTE" | "WORD" | "DWORD" | "LWORD" | "BOOL");
+                if elementary(&ty) && elementary(&p) && p != ty {
+                    out.push(toks[i].1.to_string());
+                }
+            }
+        }
+    }
+    out
+}
+
 fn has_signed_unsigned_literal_mix(tys: &[String]) -> bool {
     tys.iter().any(|t| SIGNED.contains(&t.as_str())) && tys.iter().any(|t| UNSIGNED.contains(&t.as_str()))
 }
@@ -334,9 +380,19 @@ pub fn match_known(inp: &SigInput<'_>) -> Option<&'static str> {
     let stmt = header(inp.stmt?);
     let up = stmt.to_ascii_uppercase();
     let tys = types_in(&stmt, &decl);
-    let has_signed = tys.iter().any(|t| SIGNED.contains(&t.as_str()));
+    // an untyped integer literal is lowered as DINT, i.e. it is a signed operand
+    let has_untyped_int = lex(&stmt).iter().any(|t| t.kind == K::Number && !stmt[t.start..t.end].contains('.'));
+    let has_signed = tys.iter().any(|t| SIGNED.contains(&t.as_str())) || has_untyped_int;
     let has_unsigned = tys.iter().any(|t| UNSIGNED.contains(&t.as_str()));
     let has_real = tys.iter().any(|t| t == "REAL" || t == "LREAL");
+    // ---- F41 (read form): the statement reads a variable whose unchecked initialiser is a
+    // literal of another elementary type than the declaration
+    {
+        let bad = mistyped_initialised_names(inp.source);
+        if !bad.is_empty() && lex(&stmt).iter().any(|t| t.kind == K::Word && bad.iter().any(|b| b.eq_ignore_ascii_case(&stmt[t.start..t.end]))) {
+            if (inp.open)(F41) { return Some(F41); }
+        }
+    }
     // ---- F42: partial access on something that is not a bit string
     {
         let toks: Vec<(K, &str)> = lex(&stmt).into_iter().filter(|t| t.kind != K::Trivia).map(|t| (t.kind, &stmt[t.start..t.end])).collect();
@@ -352,9 +408,9 @@ pub fn match_known(inp: &SigInput<'_>) -> Option<&'static str> {
     }
     // ---- F41 (statement form): a call statement whose callee has a non-literal local
     // initialiser - the TypeMismatch comes out of the callee's initialisers
-    if has_nonliteral_initialiser(inp.source) && stmt.contains('(') && !has_signed_unsigned_literal_mix(&tys) {
+    if (has_nonliteral_initialiser(inp.source) || !mistyped_initialised_names(inp.source).is_empty()) && stmt.contains('(') && !has_signed_unsigned_literal_mix(&tys) {
         let names: Vec<String> = lex(&stmt).iter().filter(|t| t.kind == K::Word).map(|t| stmt[t.start..t.end].to_ascii_uppercase()).collect();
-        if names.iter().any(|n| n == "XFN" || n == "XFB" || n == "XDER" || n == "XCLS" || n == "BUMP") {
+        if names.iter().any(|n| matches!(n.as_str(), "XFN" | "XFB" | "XDER" | "XCLS" | "BUMP" | "XMID" | "XTOP" | "XOUTER" | "XOUT" | "XEN" | "HELPER" | "RUN" | "STP" | "XTFB" | "INNER")) {
             if (inp.open)(F41) { return Some(F41); }
         }
     }
@@ -431,6 +487,28 @@ pub fn match_known(inp: &SigInput<'_>) -> Option<&'static str> {
                 let arg = toks[i + 2].1;
                 if decl.iter().any(|(n, t)| n.eq_ignore_ascii_case(arg) && *t == src_ty) {
                     if (inp.open)(F8) { return Some(F8); }
+                }
+            }
+        }
+    }
+    // ---- F8 (real functions): a function that takes REAL/LREAL only, applied to a plain
+    // variable DECLARED REAL/LREAL, can only mismatch when the variable holds a value of
+    // another type (an earlier assignment kept its expression's type)
+    {
+        const REAL_FNS: [&str; 12] = ["SQRT", "LN", "LOG", "EXP", "SIN", "COS", "TAN", "ASIN", "ACOS", "ATAN", "TRUNC", "EXPT"];
+        let toks: Vec<(K, &str)> = lex(&stmt).into_iter().filter(|t| t.kind != K::Trivia).map(|t| (t.kind, &stmt[t.start..t.end])).collect();
+        for i in 0..toks.len() {
+            if toks[i].0 == K::Word && REAL_FNS.iter().any(|f| toks[i].1.eq_ignore_ascii_case(f)) && i + 2 < toks.len() && toks[i + 1].1 == "(" {
+                // optional `IN :=` / `IN1 :=`
+                let mut a = i + 2;
+                if a + 2 < toks.len() && toks[a].0 == K::Word && toks[a + 1].1 == ":=" {
+                    a += 2;
+                }
+                if a + 1 < toks.len() && toks[a].0 == K::Word && matches!(toks[a + 1].1, ")" | ",") {
+                    let arg = toks[a].1;
+                    if decl.iter().any(|(n, t)| n.eq_ignore_ascii_case(arg) && (t == "REAL" || t == "LREAL")) {
+                        if (inp.open)(F8) { return Some(F8); }
+                    }
                 }
             }
         }
